@@ -312,6 +312,13 @@ def instrument(mediator, job, config, standin):
     taggers = list(act._taggers)
     tag_of = {id(h): t.tag for t in taggers for h in t.get_event_handlers()}
     extras = set(job.get("extras") or [])
+    # "however long the run is": emulate the lazy-deletion counters of the heap scheduler after `prime_counters` trashed candidates per
+    # event handler (the state a production run reaches after ~4.3e9 legs: the counters cross the C `unsigned int` range a few
+    # hundred legs into the traced run). Set before anything was pushed; the list scheduler has no counters.
+    if job.get("prime_counters") is not None and hasattr(sch, "_minimal_valid_counter") and not job.get("resume"):
+        if not sch._minimal_valid_counter:
+            for h_ in handlers:
+                sch._minimal_valid_counter[h_] = int(job["prime_counters"])
     import copy as _copy
     pristine = {}
     for t in taggers:
